@@ -431,3 +431,147 @@ func CallsAlias2OK() int {
 
 // setUndeclared writes through its parameter without saying so in its contract.
 func setUndeclared(p *pair) { p.a = 9 }
+
+// MustPos panics explicitly.
+func MustPos(x int) int {
+	if x < 0 {
+		panic("negative")
+	}
+	return x
+}
+
+// MustPosNoPanic is MustPos under a no-panic contract.
+func MustPosNoPanic(x int) int {
+	if x < 0 {
+		panic("negative")
+	}
+	return x
+}
+
+type shape interface{ area() int }
+type sq struct{ s int }
+
+func (q sq) area() int { return q.s * q.s }
+
+// Area: a call through an interface whose dynamic type is known.
+func Area(n int) int {
+	var s shape = sq{n}
+	return s.area()
+}
+
+// Named: named results and a bare return.
+func Named(x int) (r int, err error) {
+	r = x + 1
+	return
+}
+
+// ArrayCopy: arrays are values.
+func ArrayCopy() int {
+	a := [3]int{1, 2, 3}
+	b := a
+	b[0] = 9
+	return a[0] + b[0]
+}
+
+// Reslice: an element of a reslice is the shifted element of the slice.
+func Reslice(xs []int) int {
+	if len(xs) < 2 {
+		return 0
+	}
+	return xs[1:][0] - xs[1]
+}
+
+// RoundTrip: string to bytes and back.
+func RoundTrip(s string) string { return string([]byte(s)) }
+
+// ClosureLoop: a closure called in a loop writes a captured variable.
+func ClosureLoop(n int) int {
+	c := 0
+	add := func() { c++ }
+	for i := 0; i < n; i++ {
+		add()
+	}
+	return c
+}
+
+// FieldPtr: the address of a field passed to a callee.
+func FieldPtr() int {
+	p := pair{1, 2}
+	inc(&p.a)
+	return p.a
+}
+
+// NilGuard: a nil check protects the dereference.
+func NilGuard(p *pair) int {
+	if p == nil {
+		return 0
+	}
+	return p.a
+}
+
+// Spawn: goroutines are outside the verified subset.
+func Spawn() int {
+	go inc(new(int))
+	return 1
+}
+
+// MapLoop: a map written in a loop is forgotten at the cut.
+func MapLoop(xs []string) int {
+	m := map[string]int{}
+	for _, x := range xs {
+		m[x] = 1
+	}
+	return m["a"]
+}
+
+// Variadic call.
+func sum(xs ...int) int {
+	t := 0
+	for _, x := range xs {
+		t += x
+	}
+	return t
+}
+
+func CallsSum() int { return sum(1, 2) }
+
+// UConv: conversion of a negative number to an unsigned type wraps.
+func UConv(x int64) uint64 { return uint64(x) }
+
+// Embedded: promoted fields.
+type inner struct{ n int }
+type outer struct {
+	inner
+	m int
+}
+
+func Embedded(o outer) int { return o.n + o.m }
+
+// StrIndex: indexing a string past its end panics.
+func StrIndex(s string) byte { return s[3] }
+
+// SwitchFall: fallthrough.
+func SwitchFall(x int) int {
+	r := 0
+	switch x {
+	case 1:
+		r += 1
+		fallthrough
+	case 2:
+		r += 2
+	default:
+		r = 9
+	}
+	return r
+}
+
+// ShortCircuit: && does not evaluate its right operand when the left is false.
+func ShortCircuit(xs []int) bool { return len(xs) > 0 && xs[0] == 1 }
+
+// CommaOk: a checked type assertion.
+func CommaOk(v interface{}) int {
+	if n, ok := v.(int); ok {
+		return n
+	}
+	return -1
+}
